@@ -46,6 +46,7 @@ func init() {
 			return
 		}
 		ruleHNSWLayerSearch(r, "C12.FRONTIER", true)
+		ruleHNSWNeighbourTable(r, "C12.ORD")
 		ruleHNSWLinkEntry(r, "C12")
 		ruleHNSWOrder(r, "C12")
 		ruleFlushRetention(r, "C12.FLUSH", k)
@@ -143,7 +144,7 @@ func init() {
 	}, func(r *Run) {
 		w := r.W
 		ruleHNSWLayerSearch(r, "C15.FRONTIER", true)
-		ruleHNSWLinkEntry(r, "C15")
+		ruleHNSWNeighbourTable(r, "C15.ORD")
 		ruleHNSWOrder(r, "C15")
 		ruleHNSWDefaults(r, "C15.DEFAULTS")
 		for _, kn := range []string{"ivf", "ivfpq"} {
